@@ -4,5 +4,10 @@ cd "$(dirname "${BASH_SOURCE[0]}")" || exit 1
 /venv/bin/python -c "import hypothesis" 2>/dev/null || \
   /venv/bin/pip install --no-index --find-links /opt/veriftools/wheels hypothesis
 /venv/bin/python -c "import hypothesis; print('hypothesis', hypothesis.__version__)" || exit 1
+# atheris (coverage-guided fuzz layer of the thorough tiers of C15, C21, C28; vf/fuzz.py).  Optional: without it the
+# layer records "atheris unavailable" and the checks run as before.  Used with PYTHONPATH=/verif/.deps (git-ignored).
+if [ ! -d /verif/.deps/atheris ]; then
+  /venv/bin/pip install --no-index --find-links /opt/veriftools/wheels --target /verif/.deps atheris
+fi
 if [ -x tools/prebuild.sh ]; then tools/prebuild.sh || exit 1; fi
 exit 0
